@@ -173,30 +173,17 @@ def replay_built(model, ob):
     from pyvc.repo import REPO_ROOT
     if os.environ.get('PYVC_NO_BUILD_REPLAY'):
         return dict(reproduced=False, note='build replay disabled')
-    tmp = tempfile.mkdtemp(prefix='pyvc_dm_build_')
     try:
-        dst = os.path.join(tmp, 'tree')
-        subprocess.run(['rsync', '-a', '--exclude', '.git', '--exclude',
-                        'build', '--exclude', 'docs', REPO_ROOT + '/',
-                        dst + '/'], check=True)
-        env = dict(os.environ)
-        env.pop('PYTHONPATH', None)
-        p = subprocess.run(['/venv/bin/python', 'setup.py', 'build_ext',
-                            '--inplace', '-j', '8'], cwd=dst,
-                           capture_output=True, text=True, env=env,
-                           timeout=3000)
-        if p.returncode != 0:
-            return dict(reproduced=False, note='build failed: %s' %
-                        (p.stdout + p.stderr)[-400:])
-        r = native.run_venv(REPLAY, dict(built=dst), timeout=900, cwd=tmp)
+        dst, msg = native.shared_build()
+        if dst is None:
+            return dict(reproduced=False, note=msg)
+        r = native.run_venv(REPLAY, dict(built=dst), timeout=900, cwd='/tmp')
         if r['bad']:
             return dict(reproduced=True, how='nnps_base built from the '
                         'working tree', **r['bad'])
         return dict(reproduced=False)
     except Exception as e:
         return dict(reproduced=False, note=str(e)[-300:])
-    finally:
-        shutil.rmtree(tmp, ignore_errors=True)
 
 
 # --------------------------------------------------------------------- wrap
